@@ -14,9 +14,13 @@ import (
 	"io"
 	"net"
 	"net/http"
+	"os"
 	"strings"
+	"syscall"
+	"time"
 
 	"github.com/refraction-networking/conjure/pkg/station/lib"
+	"github.com/refraction-networking/conjure/pkg/station/liveness"
 	"github.com/refraction-networking/conjure/pkg/zzverif/venum"
 	"github.com/refraction-networking/conjure/pkg/zzverif/vfix"
 	"github.com/refraction-networking/conjure/pkg/zzverif/vh"
@@ -61,7 +65,9 @@ func main() {
 		{"st6", []string{"on", "off"}},
 		{"phblock", []string{"none", "covers"}},
 		{"share", []string{"off", "on"}},
-		{"live", []string{"notlive", "live"}},
+		// the (bool, error) pairs the real testers return: no answer within the probe time; a completed connect; a verdict
+		// served from the live cache; the phantom answered the SYN with a reset (live, with the dial error as reason)
+		{"live", []string{"notlive", "live", "live-cached", "live-refused"}},
 		{"override", []string{"none", "same-family", "v4-in-v6-slot", "port-only"}},
 	}
 	if !thorough {
@@ -116,7 +122,17 @@ func main() {
 			conf.PhantomBlocklist = []string{"192.122.190.0/24", "2001:48a8:687f:1::/64"}
 		}
 		lib.VerifParseBlocklists(conf)
-		tester := &vfix.Tester{Live: func(string, uint16) bool { return v["live"] == "live" }}
+		tester := &vfix.Tester{Verdict: func(addr string, port uint16) (bool, error) {
+			switch v["live"] {
+			case "live":
+				return true, liveness.ErrLiveHost
+			case "live-cached":
+				return true, liveness.ErrCachedPhantom
+			case "live-refused":
+				return true, &net.OpError{Op: "dial", Net: "tcp", Addr: &net.TCPAddr{IP: net.ParseIP(addr), Port: int(port)}, Err: os.NewSyscallError("connect", syscall.ECONNREFUSED)}
+			}
+			return false, fmt.Errorf("%w %v", liveness.NotLive, 750*time.Millisecond)
+		}}
 		rm := vfix.Manager(conf, sel, tester, vfix.Transports{Min: true, Prefix: true}, nil)
 		var anns []lib.VerifDetectorMsg
 		rm.VerifCaptureDetector(&anns)
@@ -356,7 +372,7 @@ func main() {
 			e.Violation(fmt.Sprintf("share-count:%d:override=%s:support=%s", len(shares), v["override"], v["support"]), fmt.Sprintf("%s: %d shares", id, len(shares)), map[string]any{"case": id})
 		}
 		if len(shares) == 1 {
-			if want4 && probe4 && v["live"] == "live" && !want6 {
+			if want4 && probe4 && v["live"] != "notlive" && !want6 {
 				e.Violation("shared-live-phantom", id, map[string]any{"case": id})
 			}
 			sw := &pb.C2SWrapper{}
